@@ -30,5 +30,8 @@ def run(ctx):
                      "must be accepted by the LTS model of Conc/ParDo.v (some schedule produces it; every quiescence point is a model state with "
                      "nothing enabled) and must satisfy the clauses of C13 evaluated directly on the history; "
                      "distinct = hash of (script, configuration); non-trivial = n >= 1 and the API was called")
-    vlib.handle_broken_proof(ctx)
+    def deep():
+        # only when an obligation (e.g. the source census) no longer checks: patience mode, bigger storms
+        vlib.patience_part(ctx, ParDoSpec(), exe, proofs_ok, tag="pardo", ncases=16, ms=6500)
+    vlib.handle_broken_proof(ctx, deep if ctx.tier == "quick" else None)
     ctx.finish()
